@@ -15,16 +15,57 @@ import (
 // C01 — incremental resync converges to what a fresh controller computes.
 
 var c01Kinds = []string{
-	world.KIngress, world.KIngress, world.KIngress, world.KIngress,
-	world.KService, world.KEndpoints, world.KEndpoints, world.KSecret, world.KIngressClass,
+	world.KIngress, world.KIngress, world.KIngress, world.KIngress, world.KIngress, world.KIngress,
+	world.KService, world.KService, world.KEndpoints, world.KEndpoints, world.KEndpoints, world.KSecret, world.KSecret,
+	world.KIngressClass, world.KConfigMap, world.KPod,
 }
 
 func c01Profile() Profile {
 	p := defaultProfile()
 	p.MissingRefs = true
+	p.Pods = true
+	p.NoTCPCM = false
+	p.GlobalCM = true
+	p.AuthSecret = true
+	p.GlobalKeys = []annChoice{{"drain-support", []string{"true", "false"}}, {"timeout-client", []string{"30s", "40s"}}}
+	p.Ann = append(p.Ann, annChoice{"auth-type", []string{"basic"}}, annChoice{"auth-secret", []string{"pw", "missing"}},
+		annChoice{"backend-server-naming", []string{"ip", "pod"}}, annChoice{"affinity", []string{"cookie"}},
+		annChoice{"server-alias", []string{"alias.local"}}, annChoice{"path-type", []string{"begin", "prefix", "exact"}},
+		annChoice{"secure-backends", []string{"true"}})
+	if !isKnownSig(sigRedirectFromShared) {
+		p.Ann = append(p.Ann, annChoice{"redirect-from", []string{"old.local"}})
+	}
 	p.Classes = os.Getenv("C01_NOCLASS") == ""
 	p.Avoid = []avoidRule{{Sig: sigDefBackJoins, Pred: gainsDefaultBackend}}
 	return p
+}
+
+// Known finding: the same redirect-from source claimed by two hosts is given to the host that is
+// configured first; a fresh sync processes hosts in name order, a partial sync only re-creates
+// the changed hosts, so the surviving claim depends on the history. Excluded by construction
+// (redirect-from is not generated while the finding is listed).
+const sigRedirectFromShared = "C01:redirect-from-claimed-by-two-hosts"
+
+func redirectFromShared(objs []*world.Obj) bool {
+	hostsOf := map[string]map[string]bool{}
+	for _, o := range objs {
+		if o.Kind != world.KIngress || o.Ann["redirect-from"] == "" {
+			continue
+		}
+		v := o.Ann["redirect-from"]
+		if hostsOf[v] == nil {
+			hostsOf[v] = map[string]bool{}
+		}
+		for _, r := range o.Rules {
+			hostsOf[v][r.Host] = true
+		}
+	}
+	for _, hs := range hostsOf {
+		if len(hs) > 1 {
+			return true
+		}
+	}
+	return false
 }
 
 // Known finding: an ingress that starts to declare spec.defaultBackend while the
@@ -65,11 +106,14 @@ func genParams(t *rapid.T) ctlsim.Params {
 	return ctlsim.Params{
 		Shards:            rapid.SampledFrom([]int{0, 0, 1, 3}).Draw(t, "shards"),
 		WatchWithoutClass: rapid.IntRange(0, 3).Draw(t, "wwc") == 0,
+		DefaultBackend:    rapid.SampledFrom([]string{"", "", "a/s1", "b/s2"}).Draw(t, "defback"),
+		DefaultCrt:        rapid.SampledFrom([]string{"", "", "a/t1"}).Draw(t, "defcrt"),
+		SortBy:            rapid.SampledFrom([]string{"", "", "name", "ip"}).Draw(t, "sortby"),
 	}
 }
 
 func genC01(t *rapid.T) HistCase {
-	return genHistory(t, c01Profile(), genParams(t), c01Kinds, sizeScale(5, 10), sizeScale(4, 5))
+	return genHistoryX(t, c01Profile(), genParams(t), c01Kinds, sizeScale(5, 10), sizeScale(4, 5), true)
 }
 
 // compareWithFresh is the oracle of C01 (also used by C12): NF(long-lived) == NF(fresh).
@@ -125,6 +169,8 @@ func execC01(c HistCase) *Failure {
 				f.Msg = fmt.Sprintf("after batch %d: %s\nhistory:\n%s", batch, f.Msg, describeBatches(c))
 				if histGainsDefaultBackend(c) {
 					f.Signature = sigDefBackJoins
+				} else if redirectFromShared(s.World.List()) && strings.Contains(f.Msg, "redirect prefix") {
+					f.Signature = sigRedirectFromShared
 				}
 				return f
 			}
